@@ -23,22 +23,26 @@ Qed.
 Definition G (t d : Z) : Z := f2i (PrimFloat.mul (PrimFloat.div (i2f t) (i2f RescaleDivisor)) (i2f d)).
 
 (* (1) subtraction of small integers is exact *)
-Definition sub_exact_chk : bool :=
-  upto 256 (fun lo => upto 256 (fun hi =>
-    if hi <? lo then true
-    else PrimFloat.Leibniz.eqb (PrimFloat.sub (i2f hi) (i2f lo)) (i2f (hi - lo)))).
+Definition sub_ok (lo hi : Z) : bool :=
+  (hi <? lo) || PrimFloat.Leibniz.eqb (PrimFloat.sub (i2f hi) (i2f lo)) (i2f (hi - lo)).
 
-Lemma sub_exact_chk_true : sub_exact_chk = true.
+Lemma sub_exact_chk_true : upto 256 (fun lo => upto 256 (fun hi => sub_ok lo hi)) = true.
 Proof. vm_compute. reflexivity. Qed.
+
+Lemma sub_ok_all lo hi : 0 <= lo <= 255 -> 0 <= hi <= 255 -> sub_ok lo hi = true.
+Proof.
+  intros Hl Hh. pose proof sub_exact_chk_true as C.
+  pose proof (upto_spec _ _ C lo ltac:(lia)) as C1.
+  exact (upto_spec _ _ C1 hi ltac:(lia)).
+Qed.
 
 Lemma sub_exact lo hi : 0 <= lo -> lo <= hi -> hi <= 255 ->
   PrimFloat.sub (i2f hi) (i2f lo) = i2f (hi - lo).
 Proof.
-  intros H0 H1 H2. pose proof sub_exact_chk_true as C. unfold sub_exact_chk in C.
-  pose proof (upto_spec _ _ C lo ltac:(lia)) as C1. cbv beta in C1.
-  pose proof (upto_spec _ _ C1 hi ltac:(lia)) as C2. cbv beta in C2.
-  destruct (hi <? lo) eqn:E; [apply Z.ltb_lt in E; lia|].
-  now apply FloatAxioms.Leibniz.eqb_spec.
+  intros H0 H1 H2. pose proof (sub_ok_all lo hi ltac:(lia) ltac:(lia)) as C. unfold sub_ok in C.
+  apply orb_true_iff in C. destruct C as [C|C].
+  - apply Z.ltb_lt in C. lia.
+  - now apply FloatAxioms.Leibniz.eqb_spec.
 Qed.
 
 Lemma rescale_c_G t lo hi : 0 <= lo -> lo <= hi -> hi <= 255 ->
@@ -46,36 +50,35 @@ Lemma rescale_c_G t lo hi : 0 <= lo -> lo <= hi -> hi <= 255 ->
 Proof. intros. unfold rescale_c, G. now rewrite sub_exact. Qed.
 
 (* (2) the table of G *)
-Definition G_chk : bool :=
-  upto 256 (fun d => upto 256 (fun t =>
-    let g := G t d in
-    (0 <=? g) && (g <=? d)
-    && (if t =? 0 then g =? 0 else true)
-    && (if t =? 255 then g =? d else true)
-    && (if t <? 255 then let g' := G (t + 1) d in (g <=? g') && (g' <=? g + 1) else true))).
+Definition G_okv (t d g g' : Z) : bool :=
+  (0 <=? g) && (g <=? d)
+  && ((negb (t =? 0)) || (g =? 0))
+  && ((negb (t =? 255)) || (g =? d))
+  && ((negb (t <? 255)) || ((g <=? g') && (g' <=? g + 1))).
+Definition G_ok (t d : Z) : bool := G_okv t d (G t d) (G (t + 1) d).
 
-Lemma G_chk_true : G_chk = true.
+Lemma G_chk_true : upto 256 (fun d => upto 256 (fun t => G_ok t d)) = true.
 Proof. vm_compute. reflexivity. Qed.
+
+Lemma G_ok_all t d : 0 <= t <= 255 -> 0 <= d <= 255 -> G_ok t d = true.
+Proof.
+  intros Ht Hd. pose proof G_chk_true as C.
+  pose proof (upto_spec _ _ C d ltac:(lia)) as C1.
+  exact (upto_spec _ _ C1 t ltac:(lia)).
+Qed.
 
 Lemma G_facts t d : 0 <= t <= 255 -> 0 <= d <= 255 ->
   0 <= G t d <= d /\ (t = 0 -> G t d = 0) /\ (t = 255 -> G t d = d)
   /\ (t < 255 -> G t d <= G (t + 1) d <= G t d + 1).
 Proof.
-  intros Ht Hd. pose proof G_chk_true as C. unfold G_chk in C.
-  pose proof (upto_spec _ _ C d ltac:(lia)) as C1. cbv beta in C1.
-  pose proof (upto_spec _ _ C1 t ltac:(lia)) as C2. cbv beta zeta in C2.
-  repeat (apply andb_true_iff in C2; destruct C2 as [C2 ?]).
-  repeat split.
-  - now apply Z.leb_le.
-  - now apply Z.leb_le.
-  - intros ->. match goal with H : (if 0 =? 0 then _ else _) = true |- _ => cbn in H; now apply Z.eqb_eq in H end.
-  - intros ->. match goal with H : (if 255 =? 255 then _ else _) = true |- _ => cbn in H; now apply Z.eqb_eq in H end.
-  - intros L. match goal with H : (if t <? 255 then _ else _) = true |- _ =>
-      destruct (t <? 255) eqn:E; [|apply Z.ltb_ge in E; lia];
-      apply andb_true_iff in H; destruct H as [A B]; now apply Z.leb_le in A end.
-  - intros L. match goal with H : (if t <? 255 then _ else _) = true |- _ =>
-      destruct (t <? 255) eqn:E; [|apply Z.ltb_ge in E; lia];
-      apply andb_true_iff in H; destruct H as [A B]; now apply Z.leb_le in B end.
+  intros Ht Hd. pose proof (G_ok_all t d Ht Hd) as C. unfold G_ok in C.
+  generalize dependent (G (t + 1) d). generalize dependent (G t d). intros g g' C. unfold G_okv in C.
+  repeat (apply andb_true_iff in C; destruct C as [C ?]).
+  repeat match goal with H : (_ || _) = true |- _ => apply orb_true_iff in H end.
+  repeat match goal with H : (_ && _) = true |- _ => apply andb_true_iff in H; destruct H end.
+  rewrite ?negb_true_iff, ?Z.eqb_neq, ?Z.eqb_eq, ?Z.leb_le, ?Z.ltb_ge in *.
+  repeat match goal with H : _ \/ _ |- _ => rewrite ?negb_true_iff, ?Z.eqb_neq, ?Z.eqb_eq, ?Z.leb_le, ?Z.ltb_ge in H end.
+  lia.
 Qed.
 
 Lemma G_mono d : 0 <= d <= 255 -> forall t t', 0 <= t -> t <= t' -> t' <= 255 -> G t d <= G t' d.
